@@ -17,7 +17,12 @@ pub fn verif_dir() -> String {
     std::env::var("VERIF_DIR").unwrap_or_else(|_| "/verif".to_string())
 }
 fn run_wall_limit_s() -> u64 {
-    std::env::var("VERIF_RUN_LIMIT_S").ok().and_then(|s| s.parse().ok()).unwrap_or(120)
+    let base = WALL_LIMIT.load(std::sync::atomic::Ordering::Relaxed);
+    std::env::var("VERIF_RUN_LIMIT_S").ok().and_then(|s| s.parse().ok()).unwrap_or(base)
+}
+static WALL_LIMIT: std::sync::atomic::AtomicU64 = std::sync::atomic::AtomicU64::new(120);
+pub fn set_wall_limit(s: u64) {
+    WALL_LIMIT.store(s, std::sync::atomic::Ordering::Relaxed);
 }
 
 #[derive(Serialize, Deserialize, Clone, Debug)]
@@ -391,6 +396,7 @@ pub fn write_replay(check_id: &str, seed: u64, run: u64, tier: Tier, plan: &Valu
 /// `./check <ID> quick|thorough`
 pub fn check_main(check: &dyn Check, tier: Tier, seed: u64, nw: u64) -> i32 {
     let t0 = Instant::now();
+    set_wall_limit(check.wall_limit_s());
     println!("VERIF_SEED={seed} property={} tier={} workers={nw}", check.id(), tier.name());
     let known = match KnownFindings::load(&format!("{}/known_findings.json", verif_dir())) {
         Ok(k) => k,
@@ -538,6 +544,7 @@ pub fn check_main(check: &dyn Check, tier: Tier, seed: u64, nw: u64) -> i32 {
 
 /// `./check <ID> --replay <file>`
 pub fn replay_main(check: &dyn Check, path: &str) -> i32 {
+    set_wall_limit(check.wall_limit_s());
     let doc: Value = match std::fs::read_to_string(path).map_err(|e| e.to_string()).and_then(|s| serde_json::from_str(&s).map_err(|e| e.to_string())) {
         Ok(d) => d,
         Err(e) => {
@@ -570,6 +577,7 @@ pub fn replay_main(check: &dyn Check, path: &str) -> i32 {
 
 /// Determinism self-check: same batch twice with different worker counts, per-run traces compared.
 pub fn selftest(check: &dyn Check, seed: u64, runs: u64) -> i32 {
+    set_wall_limit(check.wall_limit_s());
     let mut a = Vec::new();
     let mut b = Vec::new();
     let fixed = check.fixed_plans(Tier::Quick).len() as u64;
